@@ -30,7 +30,7 @@ ASSUMPTIONS = [
     "depth_m = depth_ft x 0.3048 is compared within 4 ulp",
 ]
 REQUIRED = ["json_exports", "json_integer_header_values", "json_text_curves", "json_nan_header_values", "json_object_curves_with_nan", "json_objects_with_infinities_and_float32", "json_infinite_values", "csv_exports", "csv_records_checked",
-            "excel_exports", "excel_text_curves", "df_roundtrips", "df_objects_with_numeric_looking_text_curve", "df_of_empty_object", "df_roundtrips_with_stale_suffixes", "exports_repeated_after_in_place_edits", "depth_unit_cases", "depth_conflict_cases", "depth_unrecognised_cases", "depth_cases_mnemonic_case_lower", "depth_cases_mnemonic_case_preserve"]
+            "excel_exports", "excel_text_curves", "df_roundtrips", "csv_exports_with_numpy_bool_options", "df_objects_with_numeric_looking_text_curve", "df_of_empty_object", "df_roundtrips_with_stale_suffixes", "exports_repeated_after_in_place_edits", "depth_unit_cases", "depth_conflict_cases", "depth_unrecognised_cases", "depth_cases_mnemonic_case_lower", "depth_cases_mnemonic_case_preserve"]
 SOFT_DEADLINE = {"quick": 100, "thorough": 1500}
 LEVEL_TEXT = "Exploration with independent readers of every export format as oracles over generated and corpus objects."
 LEVEL_NOTE = "Trusts json/csv/openpyxl/pandas as readers; export options outside the listed sets are not covered."
@@ -119,6 +119,8 @@ def make(ctx, case):
         # a text curve whose samples all look like numbers (codes with leading zeros): text stays text in the DataFrame
         n = len(las.curves[0].data)
         las.append_curve("CODE", np.array(["%03d" % (i + 1) for i in range(n)]), descr="text curve of numeric-looking codes")
+        # the same kind of curve held as an object array of str (what pandas hands back, and what set_data_from_df(df()) stores)
+        las.append_curve("OCODE", np.array(["%02d" % (i + 7) for i in range(n)], dtype=object), descr="object array of numeric-looking text")
         ctx.count("df_objects_with_numeric_looking_text_curve")
     if case.get("textcurve") and rng.random() < 0.6 and len(las.curves) and not spec.get("via_text"):
         # an object-dtype curve mixing text and NaN (what a DataFrame with a missing text value produces)
@@ -276,6 +278,7 @@ def run_csv(case, ctx, las):
     n = len(las.curves)
     mn = rng.choice([True, True, False, ["m%d" % i for i in range(n)]])
     un = rng.choice([True, True, False, ["u%d" % i for i in range(n)]])
+    numpy_bools = case.get("csvopt", 0) % 4 == 3       # the same choices as numpy bools (what comparisons of arrays yield)
     loc = rng.choice(["line", "line", "[]", "()"])
     kw = dict(rng.choice(CSV_KW))
     if case.get("empty") or n == 0:
@@ -298,7 +301,10 @@ def run_csv(case, ctx, las):
     buf = io.StringIO()
     detail = {"case": case, "mnemonics": mn, "units": un, "units_loc": loc, "csv kwargs": {k: str(v) for k, v in kw.items()}}
     try:
-        las.to_csv(buf, mnemonics=mn, units=un, units_loc=loc, **kw)
+        if numpy_bools:
+            ctx.count("csv_exports_with_numpy_bool_options")
+        las.to_csv(buf, mnemonics=np.bool_(mn) if numpy_bools and isinstance(mn, bool) else mn,
+                   units=np.bool_(un) if numpy_bools and isinstance(un, bool) else un, units_loc=loc, **kw)
     except Exception as e:
         V("csv-raised:%s" % type(e).__name__, "to_csv raised %r" % (e,), detail)
         return
